@@ -10,7 +10,7 @@ from lib.coqterm import cbytes, cbool, clist, cpair, cN, hx, unhx
 
 ID = "C41"
 QUICK_N = 400
-THOROUGH_N = 4000
+THOROUGH_N = 3000
 SHARD = 35
 RULE = ("each case is a list of 1-3 flows (HTTP request/response pairs, now and then a non-HTTP flow or an HTTP flow "
         "without response) exported with the real SaveHar.export_har to a file and read back with the real FlowReader. "
